@@ -36,6 +36,10 @@ Definition arr_clash (tg : target) (os : list obj) : bool :=
   end.
 
 Definition run_index (c : tree * how) : J := let '(tr, h) := c in Jtarget (df_index (flatten tr) h).
+(* df_columns: the common column set of the proper frames *)
+Definition run_columns (c : tree * how) : J :=
+  let '(tr, h) := c in
+  match join_index h (frame_cols (flatten tr)) with Some C => JL [JS "C"; JLZ C] | None => JNone end.
 Definition run_reindex (c : tree * how * method) : J :=
   let '(tr, h, m) := c in
   let tg := match h with HX x => TgIdx x | _ => df_index (flatten tr) h end in
